@@ -32,7 +32,9 @@ Items == <<
   I("\"\"\"", "dq"), I("\\\n", "cont"), I("'''", "sq"), I("\\t", "esc"), I("\\x41\\u00e9", "esc"),                  \* 61-65
   I("{x! r}", "fld"), I("\\x4", "esc"), I("\\N{NOPE}", "esc"), I("{!r}", "fld"), I("{:>4}", "fld"),          \* 66-70 invalid unless raw
   I("{x!r x}", "fld"), I("\\u12", "esc"), I("{x!R}", "fld"), I("\\400", "esc"), I("{x;y}", "fld"),            \* 71-75
-  I("{x\n\n=}", "fldml"), I("{\n\n x \n\n}", "fldml"), I("{x:{y=}}", "fld"), I("{x\n  =\n !r\n}", "fldml"), I("{(x,\n\n y)=}", "fldml")   \* 76-80 blank lines inside fields
+  I("{x\n\n=}", "fldml"), I("{\n\n x \n\n}", "fldml"), I("{x:{y=}}", "fld"), I("{x\n  =\n !r\n}", "fldml"), I("{(x,\n\n y)=}", "fldml"),  \* 76-80 blank lines inside fields
+  I("{f'{y:a\nb}'}", "sqin3dq"), I("{f\"{y:a\nb}\"}", "dqin3sq"), I("{f\"{f'{y}'}\"}", "dqin3sq"), I("{f\"{f'{y:{w}x}'}\"}", "dqin3sq"),                \* 81-84 nested literals
+  I("{x:{f'{y:{w}}'}}", "fldsq"), I("{f\"{f'{y}'}\":{w}}", "dqin3sq"), I("{f'{f\"{y!r:{w}}\"}'}", "sqin3dq")                                              \* 85-87
 >>
 Prefixes == <<"f", "F", "rf", "fr", "Rf", "fR", "RF", "Fr">>
 Quotes == <<"'", "\"", "'''", "\"\"\"">>
@@ -43,6 +45,8 @@ Allowed(q, it) ==
   /\ (it.kind \in {"sq", "fldsq"}) => q \in {2, 4}          \* a ' only inside "..." or """..."""
   /\ (it.kind \in {"dq", "flddq"}) => q \in {1, 3}
   /\ (it.kind \in {"fldml", "nl"}) => q \in {3, 4}
+  /\ (it.kind = "sqin3dq") => q = 4                          \* holds ' and may hold a newline: only inside """..."""
+  /\ (it.kind = "dqin3sq") => q = 3
   /\ (it.kind = "cont") => q \in {1, 2}                      \* backslash-newline continues a single-quoted literal
 
 RECURSIVE Cat(_)
